@@ -19,6 +19,9 @@ def run(chk, replay=None):
     variants["pernode"] = dict(drive="reset_step", record=dict(params=False, inputs=True, rng={"n0": True, "n1": False, "n2": True, "n3": False},
                                                                  state={"n0": False, "n1": True, "n2": True, "n3": False},
                                                                  output={"n0": True, "n1": True, "n2": False, "n3": True}))
+    # get_record() is called once while the episode runs and again after stop(): whatever the second call returns must be self-consistent (the windows of
+    # its rows are backed by its own message log)
+    variants["record_twice"] = dict(drive="reset_step", record=dict(settings["all"]), record_mid=2)
     variants["max1"] = dict(drive="reset_step", record=dict(settings["all"], max_records=1))
     variants["max3"] = dict(drive="run", record=dict(settings["all"], max_records=3))
     n = 4 if quick else 10
@@ -88,6 +91,19 @@ def run(chk, replay=None):
                     if "rng" in c: got["rng"] = c["rng"][k]; want["rng"] = [h[4], h[5]]
                     if got != want:
                         chk.violation("record-row-unfaithful", f"{nname}[{k}] under setting {vn}: recorded {got}, the step used/produced {want}", dict(cfg=cfg, setting=rec)); break
+                # the windows of the recorded rows are backed by the record's own message log (consumed messages of that connection, consumed no later than the step)
+                if "wins" in c and not rec.get("max_records"):
+                    for key_, cc_ in cfg["conns"].items():
+                        if cc_["in"] != nname: continue
+                        log = {m[0]: m[1] for m in ep["record"]["msgs"].get(key_, [])}        # seq_out -> seq_in
+                        bad = None
+                        for k in range(T):
+                            for ent in (c["wins"][k].get(cc_["out"]) or []):
+                                if ent[0] >= 0 and (ent[0] not in log or log[ent[0]] > c["seq"][k]): bad = (k, ent[0]); break
+                            if bad: break
+                        if bad:
+                            chk.violation("record-window-not-in-message-log", f"{nname}[{bad[0]}] used message {cc_['out']}[{bad[1]}] (recorded input window) but the record's message log of "
+                                          f"{key_} does not list it as consumed by then ({vn})", dict(cfg=cfg, setting=rec)); break
                 # state chain
                 if "state" in c and "out" in c:
                     for k in range(min(T, len(c["out"])) - 1):
